@@ -417,6 +417,11 @@ def builders(ctx, drv):
     # directed_percolate_network / get_infected_nodes under scripted exponentials
     for _ in range(ctx.scale(200, 1500)):
         c = sims.graph_case(ctx.rng, 1, 8, weighted_e=ctx.rng.random() < 0.5, weighted_n=ctx.rng.random() < 0.5)
+        if ctx.rng.random() < 0.3:
+            # node names that a library might be tempted to use as sentinels: 0, -1, -2, …
+            off = ctx.rng.choice([0, 1])
+            c["labels"] = [-(i + off) for i in range(c["n"])]
+            ctx.count("get_infected_nodes:negative-int names")
         G, lab = sims.build_graph(c)
         idx = gen.index_of(G)
         tau, gamma = ctx.rng.choice(gen.RATES), ctx.rng.choice(gen.RATES)
